@@ -184,7 +184,9 @@ def tlc(module, cfg=None, cwd=None, workers="auto", timeout=600, simulate=None, 
     violation; raises InfraError on crash/timeout/parse problems."""
     cfg = cfg or module + ".cfg"
     meta = os.path.join(cwd, "meta-%s-%d" % (module, int(time.time() * 1000) % 100000000))
-    java = ["java", "-XX:+UseParallelGC", "-Xss" + stack]
+    jtmp = os.path.join(cwd, "jtmp")
+    os.makedirs(jtmp, exist_ok=True)
+    java = ["java", "-XX:+UseParallelGC", "-Xss" + stack, "-Djava.io.tmpdir=" + jtmp]     # (TLC unpacks its modules into the temp dir)
     if heap:
         java.append("-Xmx" + heap)
     if deque:
